@@ -485,7 +485,10 @@ def main():
                 'Lean 4.33 kernel; Mathlib as checked by it; axioms allowed: propext, Classical.choice, Quot.sound',
                 'translator/extract_constants.py (literal extraction)',
                 'translator/extract_formulas.py (Rust statement/expression subset -> Lean; the field-API primitives it maps '
-                '(+ - * square abs is_negative, from_bytes_checked/deserialize_compressed, sqrt_ratio_zeta as the parameter sr) are taken by contract)',
+                '(+ - * square abs is_negative, from_bytes_checked/deserialize_compressed, sqrt_ratio_zeta as the parameter sr; ark-r1cs-std gadget primitives; '
+                'the two square-root tables by name; u64 counters as naturals) are taken by contract)',
+                'translator/extract_opforms.py and extract_convforms.py (impl blocks of the operator and conversion forms, read on denotations; '
+                'assume-guarantee over the forwarding graph)',
                 'correspondence harness + driver (differential testing of the model against the crate)'],
             theorems=thm_names[:400],
             axioms_used=sorted({a for axs in axioms.values() for a in axs}),
